@@ -1415,6 +1415,8 @@ class Array:
                 pipes.append(pipe)
             else:
                 perms[ax] = np.arange(self.shape[ax], dtype=np.intp)
+        if len(axes) == 0:  # nothing to sort or bunch
+            return tuple(perms), self.copy(deep=False)
         cp = self.combine_legs(axes, pipes=pipes)
         cp._labels = self._labels[:]  # reset labels
         # ... and convert pipes back to leg charges
